@@ -970,7 +970,20 @@ def check_derived(rep, repo):
         rep.check(ok, 'C10.R6', init.where, '%s = %s - 1' % (idx, idn), got=got, want='self.%s - 1' % idn, construct='%s = %s' % (idx, got))
     # import_model derives the three lists after reading
     im = repo.function('import_model', repo.rel('solver', 'fileIO.py'))
-    order = [n.func.attr if isinstance(n.func, ast.Attribute) else getattr(n.func, 'id', '') for n in ast.walk(im.node) if isinstance(n, ast.Call)]
     need = ['set_project_lists', 'set_lecturer_lists', 'set_rank_lists']
+
+    def calls_of(node, depth=0):
+        out = []
+        for n in ast.walk(node):
+            if isinstance(n, ast.Call):
+                nm = n.func.attr if isinstance(n.func, ast.Attribute) else getattr(n.func, 'id', '')
+                out.append(nm)
+                if nm not in need and depth < 3:
+                    # a wrapper (e.g. one method that derives all three lists): look through it
+                    targets = [ms[nm] for ms in repo.classes.values() if nm in ms] if isinstance(n.func, ast.Attribute) else list(repo.funcs_by_name.get(nm, []))
+                    if len(targets) == 1 and targets[0].node is not node:
+                        out.extend(x for x in calls_of(targets[0].node, depth + 1) if x in need)
+        return out
+    order = calls_of(im.node)
     rep.check(all(x in order for x in need) and repo.actual_function('_import_from_file') in order, 'C10.R6', im.where, 'import_model reads the file and derives project, lecturer and rank lists', got=order,
               want=['_import_from_file'] + need, construct='import_model steps')
